@@ -354,7 +354,45 @@ def fork_join_ir(draw, items=False, retry=False, split=None):
 
 
 @st.composite
-def directed_scenario(draw, ir_strategy, flags=None, controls=None, max_choices=60, p_fail=None):
+def items_siblings_ir(draw):
+    """Directed shape: 1..2 with-items tasks (1..4 items, concurrency none/1/2) running beside 1..2 plain
+    tasks, either all as start tasks or below a common root; optionally all of them transition into a
+    join (all / N) with a tail.  The window between two items of a concurrency-limited task - the task
+    is running with no item in progress - is where a report from a sibling (pending, canceled, failed)
+    or a request lands."""
+    lng = draw(st.sampled_from([lang.YAQL, lang.JINJA]))
+    tasks = {}
+    names = []
+    for i in range(draw(st.integers(1, 2))):
+        nm = "w%d" % i
+        n = draw(st.integers(1, 4))
+        t = {"action": "core.act", "next": [], "input": {"who": nm, "it": E(["item"], lng)},
+             "with": {"items": E(["lit", list(range(n))], lng), "keys": None}}
+        c = draw(st.sampled_from([None, 1, 1, 2]))
+        if c:
+            t["with"]["concurrency"] = c
+        tasks[nm] = t
+        names.append(nm)
+    for i in range(draw(st.integers(1, 2))):
+        nm = "a%d" % i
+        tasks[nm] = {"action": "core.act", "next": [], "input": {"who": nm}}
+        names.append(nm)
+    if draw(st.booleans()):
+        for nm in names:
+            mode = draw(st.sampled_from(["true", "true", "succeeded", "completed"]))
+            tasks[nm]["next"].append({"when": E([mode], lng), "do": ["j"], "publish": []})
+        tasks["j"] = {"action": "core.act", "input": {"who": "j"}, "join": draw(st.one_of(st.just("all"), st.just("all"), st.just("all"), st.integers(1, len(names)))),
+                      "next": [{"when": E(["succeeded"], lng), "do": ["tail"], "publish": []}]}
+        tasks["tail"] = {"action": "core.act", "input": {"who": "tail"}, "next": []}
+    if draw(st.booleans()):
+        tasks["r0"] = {"action": "core.act", "input": {"who": "r0"}, "next": [{"when": E(["true"], lng), "do": list(names), "publish": [["x", "pub@r0"]]}]}
+    ir = {"vars": [[v, "init_" + v] for v in POOL], "tasks": tasks}
+    ir["output"] = [[v + "_out", E(["ctx", v], lng)] for v in POOL]
+    return ir
+
+
+@st.composite
+def directed_scenario(draw, ir_strategy, flags=None, controls=None, max_choices=60, p_fail=None, canceled=False):
     ir = draw(ir_strategy)
     if p_fail is None:
         p_fail = draw(st.sampled_from([0.0, 0.1, 0.25, 0.4]))
@@ -365,7 +403,7 @@ def directed_scenario(draw, ir_strategy, flags=None, controls=None, max_choices=
     return {
         "ir": ir,
         "inputs": {},
-        "outcomes": draw(outcomes(ir, p_fail=p_fail)),
+        "outcomes": draw(outcomes(ir, p_fail=p_fail, canceled=canceled)),
         "choices": draw(choices(max_choices)),
         "flags": _with_eager(draw, flags),
         "style": draw(st.integers(0, 3)),
